@@ -234,7 +234,9 @@ class Check(c06.Check):
                  'and ALL schedules (C07_moved_once): if R imports x from D by name (plain or renamed, absolute or relative) and lists '
                  'it in __all__, D does not list it and has no from-imports, nothing else re-exports, then the final registry is exactly '
                  'the static one with x and everything below it under R.n, D.contents lacks x, R.contents has n, D keeps the alias '
-                 'x -> R.n; the same for the star-import form `from D import *` + __all__ when D only defines things (C07_moved_once_star). PROVED for ALL schedules, no hypothesis on the state (C07_reach_via_reexporter, C07_reach_via_module_alias and their _star forms): '
+                 'x -> R.n (Documentable.reparent and _handleReExport themselves are tied to the source: their current bodies, translated '
+                 'into Gen/ReexportCode.v, are proved to be the model\'s reparent / handle_reexport -- C07_code_reparent_is_model, '
+                 'C07_code_registry_walks_is_model, C06_code_handle_reexport_is_model); the same for the star-import form `from D import *` + __all__ when D only defines things (C07_moved_once_star). PROVED for ALL schedules, no hypothesis on the state (C07_reach_via_reexporter, C07_reach_via_module_alias and their _star forms): '
                  'a third module whose import statements bind a name to R.n, or a name to the module D, reaches the moved object in the '
                  'final state -- expandName, resolveName (base classes), link_to; find_object by the old qualified name returns it too '
                  '(C07_find_object_old_name). REFUTED (known finding): the reference through `from <defining module> '
